@@ -6,11 +6,16 @@ import (
 	"fmt"
 	"math"
 	"strings"
+	"sync"
 )
 
 // ---- A1: hostile bodies -------------------------------------------------
 
-var prefixes = []int32{0, 1, 2, 5, -1, -2, -5, 100 << 20, 100<<20 + 1, math.MaxInt32, math.MinInt32, -math.MaxInt32}
+// 1<<16 and 1<<28: sizes whose low bytes are all zero, so that a decoder which
+// misplaces or drops bytes of a preface that arrives in pieces computes a small
+// size (a fabricated message) rather than another huge one; 1<<28 also lies
+// between the limit and any plausible "declared length" of a body.
+var prefixes = []int32{0, 1, 2, 5, -1, -2, -5, 1 << 16, 100 << 20, 100<<20 + 1, 1 << 28, math.MaxInt32, math.MinInt32, -math.MaxInt32}
 
 type frame struct {
 	bytes []byte
@@ -162,6 +167,42 @@ func newHostileSet() *hostileSet {
 
 func (h *hostileSet) len() int { return h.nSeq + h.nBytes }
 
+// lenAt is len(h.at(i).body), without building the body.
+func (h *hostileSet) lenAt(i int) int {
+	f := len(h.fa)
+	if i < h.nSeq {
+		k := 3
+		for i < h.seqBase[k] {
+			k--
+		}
+		x, n := i-h.seqBase[k], 0
+		for j := 0; j < k; j++ {
+			n += len(h.fa[x%f].bytes)
+			x /= f
+		}
+		return n
+	}
+	i -= h.nSeq
+	n := 1
+	for l := 0; ; l++ {
+		if i < n {
+			return l
+		}
+		i -= n
+		n *= len(byteSyms)
+	}
+}
+
+// the "small" subset: the bodies of <= 2 frames and all the byte strings
+func (h *hostileSet) smallLen() int { return h.seqBase[3] + h.nBytes }
+
+func (h *hostileSet) smallIdx(j int) int {
+	if j < h.seqBase[3] {
+		return j
+	}
+	return h.nSeq + (j - h.seqBase[3])
+}
+
 func (h *hostileSet) at(i int) hostile {
 	f := len(h.fa)
 	if i < h.nSeq {
@@ -208,8 +249,11 @@ type Case struct {
 	Side     string              `json:"side"`     // client | server
 	Mode     string              `json:"mode"`     // stream | single | unary
 	BodyHex  string              `json:"body_hex"`
-	Abrupt   bool                `json:"abrupt"`   // body reader ends with io.ErrUnexpectedEOF instead of io.EOF
-	Delivery string              `json:"delivery"` // whole | bytewise | with-err
+	Abrupt   bool                `json:"abrupt"`                   // body reader ends with io.ErrUnexpectedEOF instead of io.EOF
+	Delivery string              `json:"delivery"`                 // whole | bytewise | with-err | split
+	Splits   []int               `json:"splits,omitempty"`         // delivery "split": no Read of the body crosses any of these offsets
+	CL       *int64              `json:"content_length,omitempty"` // declared length of the body (ContentLength field and Content-Length header); nil: not declared (-1; unary replies: as recorded)
+	Expect   *expect             `json:"expect,omitempty"`         // complete genuine bodies: what the genuine run delivered
 	Label    string              `json:"label"`
 	Status   int                 `json:"status,omitempty"` // unary client replay
 	Header   map[string][]string `json:"header,omitempty"`
@@ -291,6 +335,17 @@ func (sp *synthSpec) full(side string) []byte {
 	return out
 }
 
+func (sp *synthSpec) fullLen(side string) int {
+	n := 0
+	for _, z := range sp.Sizes {
+		n += 4 + z
+	}
+	if side == "client" {
+		n += len(okTrailerFrame)
+	}
+	return n
+}
+
 func (sp *synthSpec) body(side string) []byte {
 	b := sp.full(side)
 	if sp.Cut >= 0 && sp.Cut <= len(b) {
@@ -348,6 +403,118 @@ type a2base struct {
 	cut int
 }
 
+// expect is what the genuine run (real client against real server) delivered
+// to the application that decodes the body.
+type expect struct {
+	Msgs     []string `json:"msgs"`
+	FinalEOF bool     `json:"final_eof"`
+	Final    string   `json:"final"`
+}
+
+// ---- the two swept dimensions: read fragmentation, declared length -------
+
+// variant is one way of presenting a body: how it is cut into reads and what
+// length the message that carries it declares.
+type variant struct {
+	delivery string
+	splits   []int
+	cl       *int64
+}
+
+func i64(v int64) *int64 { return &v }
+
+const (
+	clGiB = int64(1) << 30 // above the limit, below the largest size preface
+	clTiB = int64(1) << 40 // above every size preface
+)
+
+// fragCount / fragAt enumerate the fragmentations of a body of L bytes:
+// (with-err, when that pattern is not already a base delivery), every single
+// read boundary 1..L-1, and (pairs) every pair of read boundaries.
+func fragCount(L int, withErr, pairs bool) int {
+	n := 0
+	if withErr {
+		n++
+	}
+	if L > 1 {
+		n += L - 1
+		if pairs {
+			n += (L - 1) * (L - 2) / 2
+		}
+	}
+	return n
+}
+
+func fragAt(L, i int, withErr bool) variant {
+	if withErr {
+		if i == 0 {
+			return variant{delivery: "with-err"}
+		}
+		i--
+	}
+	if i < L-1 {
+		return variant{delivery: "split", splits: []int{i + 1}}
+	}
+	i -= L - 1
+	// pair (a,b), 1 <= a < b <= L-1, in lexicographic order
+	for a := 1; a < L-1; a++ {
+		cnt := L - 1 - a
+		if i < cnt {
+			return variant{delivery: "split", splits: []int{a, a + 1 + i}}
+		}
+		i -= cnt
+	}
+	panic("fragAt: index out of range")
+}
+
+// clValues: the declared lengths swept around a body of L bytes that is (a
+// prefix of) a body of full bytes: 0, the true length, the length of the uncut
+// body, 1 GiB and 1 TiB. "Not declared" (-1) is the base case everywhere else.
+func clValues(L, full int) []int64 {
+	out := []int64{0}
+	if L != 0 {
+		out = append(out, int64(L))
+	}
+	if full != L && full != 0 {
+		out = append(out, int64(full))
+	}
+	return append(out, clGiB, clTiB)
+}
+
+// cum is a block of cases with a variable number of variants per base.
+type cum struct{ before []int } // before[j] = number of cases of the bases < j; len = bases+1
+
+func newCum(nBases int, count func(j int) int) *cum {
+	c := &cum{before: make([]int, nBases+1)}
+	for j := 0; j < nBases; j++ {
+		c.before[j+1] = c.before[j] + count(j)
+	}
+	return c
+}
+
+func (c *cum) total() int { return c.before[len(c.before)-1] }
+
+func (c *cum) find(i int) (base, off int) {
+	lo, hi := 0, len(c.before)-1 // before[lo] <= i < before[hi]
+	for hi-lo > 1 {
+		mid := (lo + hi) / 2
+		if c.before[mid] <= i {
+			lo = mid
+		} else {
+			hi = mid
+		}
+	}
+	return lo, i - c.before[lo]
+}
+
+// block is a contiguous range of the case space.
+type block struct {
+	name    string
+	n       int
+	at      func(i int) *Case
+	gcAfter bool // cases leave megabytes of garbage each
+}
+
 type space struct {
 	tier       string
 	hostile    *hostileSet
@@ -359,11 +526,99 @@ type space struct {
 	a2         []a2base
 	large      []largeBase
 	fullCache  map[string][]byte
+	fullMu     sync.Mutex
+	blocks     []block
+	starts     []int // starts[k] = index of the first case of block k; len = blocks+1
 	nA1, nA2   int
 	nLarge     int
+
+	pairs       bool // fragmentations into three reads as well
+	fragWithErr bool
+	splitRecMax int // recorded bodies up to this length: every cut x every fragmentation; longer: complete body only
+	pairRecMax  int
 }
 
 var sideModes = [][2]string{{"client", "stream"}, {"client", "single"}, {"server", "stream"}, {"server", "single"}}
+
+func (s *space) a1Case(h hostile, sm int, abrupt bool, v variant, alpha string) *Case {
+	if alpha == "" {
+		alpha = h.alpha
+	}
+	return &Case{Alphabet: alpha, Side: sideModes[sm][0], Mode: sideModes[sm][1], BodyHex: hex.EncodeToString(h.body), body: h.body,
+		Abrupt: abrupt, Delivery: v.delivery, Splits: v.splits, CL: v.cl, Label: h.label}
+}
+
+func (s *space) a2Case(b a2base, abrupt bool, v variant) *Case {
+	body := b.rec.Body[:b.cut:b.cut]
+	c := &Case{Alphabet: "A2", Side: b.rec.Side, Mode: b.rec.Mode, BodyHex: hex.EncodeToString(body), body: body,
+		Abrupt: abrupt, Delivery: v.delivery, Splits: v.splits, CL: v.cl, Label: fmt.Sprintf("%s cut at %d of %d", b.rec.Name, b.cut, len(b.rec.Body)), FullLen: len(b.rec.Body)}
+	if b.rec.Mode == "unary" && b.rec.Side == "client" {
+		c.Status = b.rec.Status
+		c.Header = b.rec.Header
+	}
+	if b.cut == len(b.rec.Body) {
+		c.Expect = &expect{Msgs: b.rec.Msgs, FinalEOF: b.rec.FinalEOF, Final: b.rec.Final}
+	}
+	return c
+}
+
+func (s *space) largeCase(b largeBase, side string, abrupt bool, v variant) *Case {
+	spec := &synthSpec{Sizes: b.sizes, Cut: b.cut}
+	k := side + spec.name()
+	s.fullMu.Lock()
+	full, ok := s.fullCache[k]
+	if !ok {
+		full = spec.full(side)
+		s.fullCache[k] = full
+	}
+	s.fullMu.Unlock()
+	body, where := full, "complete"
+	if b.cut >= 0 {
+		body, where = full[:b.cut:b.cut], fmt.Sprintf("cut at %d of %d", b.cut, len(full))
+	}
+	what := "response"
+	if side == "server" {
+		what = "request"
+	}
+	c := &Case{Alphabet: "A2-large", Side: side, Mode: "stream", body: body, Abrupt: abrupt, Delivery: v.delivery, Splits: v.splits, CL: v.cl,
+		Label: fmt.Sprintf("%s with large frames %s %s", what, spec.name(), where), FullLen: len(full), Synth: spec}
+	if b.cut < 0 {
+		e := &expect{Msgs: []string{}, FinalEOF: true, Final: "EOF"}
+		for i, z := range b.sizes {
+			e.Msgs = append(e.Msgs, abbr(largeString(i, z)))
+		}
+		c.Expect = e
+	}
+	return c
+}
+
+// largeSplits: one read boundary of every class for every frame of a large
+// body: 1, 2 and 3 bytes into its size preface, right after the preface, in the
+// middle of its payload, and at its end (bodies of megabytes cannot be split at
+// every offset; the small bodies are).
+func largeSplits(sizes []int, side string, L int) []int {
+	var out []int
+	add := func(k int) {
+		if k > 0 && k < L {
+			out = append(out, k)
+		}
+	}
+	pos := 0
+	frames := append([]int{}, sizes...)
+	if side == "client" {
+		frames = append(frames, len(okTrailerFrame)-4)
+	}
+	for _, z := range frames {
+		add(pos + 1)
+		add(pos + 2)
+		add(pos + 3)
+		add(pos + 4)
+		add(pos + 4 + z/2)
+		add(pos + 4 + z)
+		pos += 4 + z
+	}
+	return out
+}
 
 func buildSpace(tier string) (*space, error) {
 	s := &space{tier: tier}
@@ -373,9 +628,13 @@ func buildSpace(tier string) (*space, error) {
 	if tier == "thorough" {
 		s.endingsA1 = []bool{false, true}
 		s.deliveries = []string{"whole", "bytewise", "with-err"}
+		s.pairs, s.fragWithErr = true, false
+		s.splitRecMax, s.pairRecMax = 200, 48
 	} else {
 		s.endingsA1 = []bool{false}
-		s.deliveries = []string{"whole"}
+		s.deliveries = []string{"whole", "bytewise"}
+		s.pairs, s.fragWithErr = false, true
+		s.splitRecMax, s.pairRecMax = 200, 0
 	}
 	recs, err := recordAll(tier)
 	if err != nil {
@@ -387,82 +646,186 @@ func buildSpace(tier string) (*space, error) {
 			s.a2 = append(s.a2, a2base{r, c})
 		}
 	}
-	s.nA1 = s.hostile.len() * len(sideModes) * len(s.endingsA1) * len(s.deliveries)
-	s.nA2 = len(s.a2) * len(s.endingsA2) * len(s.deliveries)
 	for _, sz := range largeSizes(tier) {
 		for _, c := range (&synthSpec{Sizes: sz}).cuts() {
 			s.large = append(s.large, largeBase{sz, c})
 		}
 	}
 	s.fullCache = map[string][]byte{}
-	s.nLarge = len(s.large) * len(largeSides) * len(s.endingsA2) * len(s.deliveries)
+	nD, nE1, nE2, nSM := len(s.deliveries), len(s.endingsA1), len(s.endingsA2), len(sideModes)
+
+	// --- the base blocks: every body x ending x base delivery, length not declared
+	s.nA1 = s.hostile.len() * nSM * nE1 * nD
+	s.add(block{name: "A1", n: s.nA1, at: func(i int) *Case {
+		d := i % nD
+		i /= nD
+		e := i % nE1
+		i /= nE1
+		sm := i % nSM
+		i /= nSM
+		return s.a1Case(s.hostile.at(i), sm, s.endingsA1[e], variant{delivery: s.deliveries[d]}, "")
+	}})
+	s.nA2 = len(s.a2) * nE2 * nD
+	s.add(block{name: "A2", n: s.nA2, at: func(i int) *Case {
+		d := i % nD
+		i /= nD
+		e := i % nE2
+		i /= nE2
+		return s.a2Case(s.a2[i], s.endingsA2[e], variant{delivery: s.deliveries[d]})
+	}})
+	// --- read fragmentation
+	// hostile bodies of <= 2 frames and the byte strings x side/mode x ending x every fragmentation
+	small := s.hostile.smallLen()
+	lens := make([]int, small)
+	for j := range lens {
+		lens[j] = s.hostile.lenAt(s.hostile.smallIdx(j))
+	}
+	cf := newCum(small, func(j int) int { return fragCount(lens[j], s.fragWithErr, s.pairs) })
+	s.add(block{name: "A1-frag", n: cf.total() * nSM * nE1, at: func(i int) *Case {
+		e := i % nE1
+		i /= nE1
+		sm := i % nSM
+		i /= nSM
+		j, off := cf.find(i)
+		return s.a1Case(s.hostile.at(s.hostile.smallIdx(j)), sm, s.endingsA1[e], fragAt(lens[j], off, s.fragWithErr), "")
+	}})
+	// recorded bodies: every cut x ending x every fragmentation (long recordings: complete body only)
+	a2frag := func(b a2base) (bool, bool) {
+		n := len(b.rec.Body)
+		return n <= s.splitRecMax || b.cut == n, s.pairs && n <= s.pairRecMax
+	}
+	ca := newCum(len(s.a2), func(j int) int {
+		on, pairs := a2frag(s.a2[j])
+		if !on {
+			return 0
+		}
+		return fragCount(s.a2[j].cut, s.fragWithErr, pairs)
+	})
+	s.add(block{name: "A2-frag", n: ca.total() * nE2, at: func(i int) *Case {
+		e := i % nE2
+		i /= nE2
+		j, off := ca.find(i)
+		return s.a2Case(s.a2[j], s.endingsA2[e], fragAt(s.a2[j].cut, off, s.fragWithErr))
+	}})
+	// --- declared length of the body
+	// hostile bodies (quick: <= 2 frames and the byte strings; thorough: all) x side/mode x declared length, clean ending, whole
+	nH, hIdx := small, s.hostile.smallIdx
+	if tier == "thorough" {
+		nH, hIdx = s.hostile.len(), func(j int) int { return j }
+	}
+	cc := newCum(nH, func(j int) int { return len(clValues(s.hostile.lenAt(hIdx(j)), 0)) })
+	s.add(block{name: "A1-len", n: cc.total() * nSM, at: func(i int) *Case {
+		sm := i % nSM
+		i /= nSM
+		j, off := cc.find(i)
+		h := s.hostile.at(hIdx(j))
+		return s.a1Case(h, sm, false, variant{delivery: "whole", cl: i64(clValues(len(h.body), 0)[off])}, "")
+	}})
+	// recorded bodies: every cut x ending x declared length x base delivery
+	c2 := newCum(len(s.a2), func(j int) int { return len(clValues(s.a2[j].cut, len(s.a2[j].rec.Body))) })
+	s.add(block{name: "A2-len", n: c2.total() * nE2 * nD, at: func(i int) *Case {
+		d := i % nD
+		i /= nD
+		e := i % nE2
+		i /= nE2
+		j, off := c2.find(i)
+		b := s.a2[j]
+		return s.a2Case(b, s.endingsA2[e], variant{delivery: s.deliveries[d], cl: i64(clValues(b.cut, len(b.rec.Body))[off])})
+	}})
+	// --- the large bodies come last: each leaves megabytes of garbage, and the
+	// collections that clear it must not recycle memory for the huge frames above
+	s.nLarge = len(s.large) * len(largeSides) * nE2 * nD
+	s.add(block{name: "A2-large", n: s.nLarge, gcAfter: true, at: func(i int) *Case {
+		d := i % nD
+		i /= nD
+		e := i % nE2
+		i /= nE2
+		side := largeSides[i%len(largeSides)]
+		i /= len(largeSides)
+		return s.largeCase(s.large[i], side, s.endingsA2[e], variant{delivery: s.deliveries[d]})
+	}})
+
+	// large bodies: one read boundary of every class per frame
+	lsplits := map[string][]int{}
+	lbLen := func(b largeBase, side string) int {
+		L := (&synthSpec{Sizes: b.sizes}).fullLen(side)
+		if b.cut >= 0 {
+			L = b.cut
+		}
+		return L
+	}
+	type ls struct {
+		b    largeBase
+		side string
+	}
+	var lbases []ls
+	for _, b := range s.large {
+		for _, side := range largeSides {
+			lbases = append(lbases, ls{b, side})
+			lsplits[fmt.Sprint(b, side)] = largeSplits(b.sizes, side, lbLen(b, side))
+		}
+	}
+	cl := newCum(len(lbases), func(j int) int { return len(lsplits[fmt.Sprint(lbases[j].b, lbases[j].side)]) })
+	s.add(block{name: "A2-large-frag", n: cl.total() * nE2, gcAfter: true, at: func(i int) *Case {
+		e := i % nE2
+		i /= nE2
+		j, off := cl.find(i)
+		k := lsplits[fmt.Sprint(lbases[j].b, lbases[j].side)][off]
+		return s.largeCase(lbases[j].b, lbases[j].side, s.endingsA2[e], variant{delivery: "split", splits: []int{k}})
+	}})
+
+	// large bodies x ending x declared length, whole
+	c3 := newCum(len(lbases), func(j int) int {
+		return len(clValues(lbLen(lbases[j].b, lbases[j].side), (&synthSpec{Sizes: lbases[j].b.sizes}).fullLen(lbases[j].side)))
+	})
+	s.add(block{name: "A2-large-len", n: c3.total() * nE2, gcAfter: true, at: func(i int) *Case {
+		e := i % nE2
+		i /= nE2
+		j, off := c3.find(i)
+		lb := lbases[j]
+		full := (&synthSpec{Sizes: lb.b.sizes}).fullLen(lb.side)
+		return s.largeCase(lb.b, lb.side, s.endingsA2[e], variant{delivery: "whole", cl: i64(clValues(lbLen(lb.b, lb.side), full)[off])})
+	}})
 	return s, nil
 }
 
-func (s *space) total() int { return s.nA1 + s.nA2 + s.nLarge }
+func (s *space) add(b block) {
+	if len(s.starts) == 0 {
+		s.starts = []int{0}
+	}
+	s.blocks = append(s.blocks, b)
+	s.starts = append(s.starts, s.starts[len(s.starts)-1]+b.n)
+}
 
-func (s *space) largeAt(i int) *Case {
-	d := i % len(s.deliveries)
-	i /= len(s.deliveries)
-	e := i % len(s.endingsA2)
-	i /= len(s.endingsA2)
-	side := largeSides[i%len(largeSides)]
-	i /= len(largeSides)
-	b := s.large[i]
-	spec := &synthSpec{Sizes: b.sizes, Cut: b.cut}
-	k := side + spec.name()
-	full, ok := s.fullCache[k]
-	if !ok {
-		full = spec.full(side)
-		s.fullCache[k] = full
+func (s *space) total() int { return s.starts[len(s.starts)-1] }
+
+// blockOf returns the block that holds case i and the index of the case in it.
+func (s *space) blockOf(i int) (int, int) {
+	for k := range s.blocks {
+		if i < s.starts[k+1] {
+			return k, i - s.starts[k]
+		}
 	}
-	body, where := full, "complete"
-	if b.cut >= 0 {
-		body, where = full[:b.cut:b.cut], fmt.Sprintf("cut at %d of %d", b.cut, len(full))
-	}
-	what := "response"
-	if side == "server" {
-		what = "request"
-	}
-	return &Case{Alphabet: "A2-large", Side: side, Mode: "stream", body: body, Abrupt: s.endingsA2[e], Delivery: s.deliveries[d],
-		Label: fmt.Sprintf("%s with large frames %s %s", what, spec.name(), where), FullLen: len(full), Synth: spec}
+	panic(fmt.Sprintf("case index %d out of range", i))
 }
 
 func (s *space) at(i int) *Case {
-	if i < s.nA1 {
-		d := i % len(s.deliveries)
-		i /= len(s.deliveries)
-		e := i % len(s.endingsA1)
-		i /= len(s.endingsA1)
-		sm := i % len(sideModes)
-		i /= len(sideModes)
-		h := s.hostile.at(i)
-		return &Case{Alphabet: h.alpha, Side: sideModes[sm][0], Mode: sideModes[sm][1], BodyHex: hex.EncodeToString(h.body), body: h.body,
-			Abrupt: s.endingsA1[e], Delivery: s.deliveries[d], Label: h.label}
+	k, j := s.blockOf(i)
+	return s.blocks[k].at(j)
+}
+
+func (s *space) blockSizes() map[string]int {
+	out := map[string]int{}
+	for _, b := range s.blocks {
+		out[b.name] = b.n
 	}
-	i -= s.nA1
-	if i >= s.nA2 {
-		return s.largeAt(i - s.nA2)
-	}
-	d := i % len(s.deliveries)
-	i /= len(s.deliveries)
-	e := i % len(s.endingsA2)
-	i /= len(s.endingsA2)
-	b := s.a2[i]
-	body := b.rec.Body[:b.cut:b.cut]
-	c := &Case{Alphabet: "A2", Side: b.rec.Side, Mode: b.rec.Mode, BodyHex: hex.EncodeToString(body), body: body,
-		Abrupt: s.endingsA2[e], Delivery: s.deliveries[d], Label: fmt.Sprintf("%s cut at %d of %d", b.rec.Name, b.cut, len(b.rec.Body)), FullLen: len(b.rec.Body)}
-	if b.rec.Mode == "unary" && b.rec.Side == "client" {
-		c.Status = b.rec.Status
-		c.Header = b.rec.Header
-	}
-	return c
+	return out
 }
 
 // hash identifies the case space so that parent and workers agree on it.
 func (s *space) hash() string {
 	var sb strings.Builder
-	fmt.Fprintf(&sb, "%s|%d|%d|%d|%v|", s.tier, s.nA1, s.nA2, s.nLarge, s.large)
+	fmt.Fprintf(&sb, "%s|%v|%v|", s.tier, s.starts, s.large)
 	for _, r := range s.recs {
 		fmt.Fprintf(&sb, "%s/%s/%s/%x|", r.Name, r.Side, r.Mode, r.Body)
 	}
